@@ -572,6 +572,7 @@ func valueLabels(v reflect.Value, set map[string]bool, depth int) {
 func genOpts() *pgen.Opts {
 	o := pgen.OptsFor(evid.KnownActive, evid.Excluded)
 	o.BigRep = true
+	o.Huge = evid.Thorough()
 	if !evid.Thorough() {
 		o.BigRepN = 2500
 	}
